@@ -34,7 +34,16 @@ def c18_jobs(tier):
     return [sim("c18-namescan", "c18", evaluations_counter="inputs", require_counters=["inputs", "api_round_trips"])]
 
 
+def c16_jobs(tier):
+    return [sim("c16-crashpoints", "c16", require_counters=["abandoned_mid_flight", "abandoned_with_full_mailbox_seen", "dropped_while_parked"])]
+
+
 PROPERTIES = {
+    "C16": {"level": "fault_enumeration", "jobs": c16_jobs, "engine": "dvsim",
+            "technique": "fault injection with runtime monitoring: poll-k-then-drop abandonment at every suspension point of every request kind, state compared with the two admissible outcomes at quiescence",
+            "level_text": "Every request kind (20) is abandoned after exactly k polls for k=1..14 under four mailbox saturation settings (complete enumeration, repeated with seeded scheduler yields), on the real services with the handler future living inside the dropped client future. After quiescence the client-visible state (listings, attachment, stats, push registry), a probe publish to every topic and message accounting after the deadline must equal 'request completed' or 'request never received'. Enumeration of crash points is complete for the direct transport up to k=14 (every kind completes in <=4 polls); schedules around it are sampled.",
+            "level_note": SIM_NOTE + " Abandonment is injected on the direct transport only (exact crash points); over h2 cancellation arrives as RST_STREAM and is exercised by the C12/C06 stream aborts, not here.",
+            "assumptions": ["a call still parked at quiescence with fewer than k polls is dropped there"]},
     "C18": {"level": "exploration", "jobs": c18_jobs, "engine": "dvsim (namescan mode)",
             "technique": "runtime monitoring of the parsing API: exhaustive structured input enumeration checked against an independent grammar oracle, plus gRPC round trips",
             "level_text": "Both name parsers are executed on an exhaustively enumerated family of ~3.6 million strings around the two fixed segments (all single-character edits of the prefix and of both segments, double edits, foreign same-length segments, all project/ID fillers up to length 3/4 over an alphabet with '/', '-', digits, letters and a multi-byte character), on random longer strings, and through Create->echo->Get round trips of the real services. An independent grammar decides acceptance; echo acceptance, same-resource and fixed-point are checked for every accepted string. The family is finite and enumerated completely (exhaustive: true), but the property quantifies over all strings, so the level is exploration.",
